@@ -113,7 +113,23 @@ CHECKS["C15"] = {
     "technique": "property-based testing (rapid) with a by-construction reference entitlement model",
 }
 
+CHECKS["C14"] = {
+    "title": "password authentication follows the account history",
+    "go": GO,
+    "units": [
+        {"name": "pass_table", "pkg": "internal/auth/pass_table",
+         "overlay": {"verif_c14_test.go": "harness/C14/pass_table_test.go"}},
+    ],
+    "quick": {"n": 1600, "shards": 16},
+    "thorough": {"n": 64000, "shards": 16},
+    "level_text": "model-based randomised search (rapid): histories of account operations and PLAIN/LOGIN authentications applied to the real "
+                  "pass_table + SASLAuth and to a reference map; PLAIN and LOGIN are compared on every authentication.",
+    "level_note": "the table behind pass_table is an in-memory MutableTable of the harness; password hashing is real (bcrypt cost 4 on create, "
+                  "default cost on set-password; argon2 with tiny parameters), which bounds the number of histories per run",
+    "technique": "stateful / model-based property testing (rapid) against a reference map, with a PLAIN-vs-LOGIN differential",
+}
+
 # properties deliberately not claimed: {"property_id":..., "reason":...}
 NOT_APPLICABLE = []
 
-FIX_COMMITS = ["b0fbfbf", "ce16772", "79536cb", "9da7ceb", "ba9a898", "cd17c24", "0f579ef", "cfad1cd", "1450983", "0eb6137"]
+FIX_COMMITS = ["b0fbfbf", "ce16772", "79536cb", "9da7ceb", "ba9a898", "cd17c24", "0f579ef", "cfad1cd", "1450983", "0eb6137", "4ba5ca6"]
